@@ -392,8 +392,11 @@ class Ctx:
         k = n["k"]
         if k == "un" and n["op"] == "!":
             return self.cmp_fact(n["sub"], not truth, inline)
-        if k == "ref" and n["dk"] == "local" and inline and self.single_assignment(n["d"]) and n.get("t") == "bool":
+        if k == "ref" and n["dk"] == "local" and inline and self.single_assignment(n["d"]) and (n.get("t") or "").replace("const ", "").strip() == "bool" \
+                and self.decls.get(n["d"], {}).get("init") is not None:
             return self.cmp_fact(self.decls[n["d"]]["init"], truth, inline)
+        if k == "cast" and (n.get("t") or "").replace("const ", "").strip() == "bool" and (fn.nodes[n["sub"]].get("t") or "").replace("const ", "").strip() == "bool":
+            return self.cmp_fact(n["sub"], truth, inline)
         if k == "bin" and ((n["op"] == "&&" and truth) or (n["op"] == "||" and not truth)):
             return self.cmp_fact(n["l"], truth, inline) + self.cmp_fact(n["r"], truth, inline)
         op = None
